@@ -132,11 +132,13 @@ type threadClose struct{}
 // t.Resume() method needs to be called to provide arguments to the callable.
 func (t *Thread) Start(c Callable) {
 	t.RequireBytes(2 << 10) // A goroutine starts off with 2k stack
+	verifSched(verifEvSpawn, t)
 	go func() {
 		var (
 			args []Value
 			err  error
 		)
+		verifSched(verifEvStart, t)
 		// If there was a panic due to an exceeded quota, we need to end the
 		// thread and propagate that panic to the calling thread
 		defer func() {
@@ -152,6 +154,7 @@ func (t *Thread) Start(c Callable) {
 				}
 			}
 			t.end(args, err, r)
+			verifSched(verifEvExit, t)
 		}()
 		args, err = t.getResumeValues()
 		if err == nil {
@@ -170,9 +173,11 @@ func (t *Thread) Status() ThreadStatus {
 // Resume execution of a suspended thread.  Its status switches to
 // running while its caller's status switches to suspended.
 func (t *Thread) Resume(caller *Thread, args []Value) ([]Value, error) {
+	verifSched(verifEvBeforeLock, t)
 	t.mux.Lock()
 	if t.status != ThreadSuspended {
 		t.mux.Unlock()
+		verifSched(verifEvAfterUnlock, t)
 		switch t.status {
 		case ThreadDead:
 			return nil, errors.New("cannot resume dead thread")
@@ -180,6 +185,7 @@ func (t *Thread) Resume(caller *Thread, args []Value) ([]Value, error) {
 			return nil, errors.New("cannot resume running thread")
 		}
 	}
+	verifSched(verifEvBeforeLock, caller)
 	caller.mux.Lock()
 	if caller.status != ThreadOK {
 		panic("Caller of thread to resume is not running")
@@ -187,7 +193,9 @@ func (t *Thread) Resume(caller *Thread, args []Value) ([]Value, error) {
 	t.caller = caller
 	t.status = ThreadOK
 	t.mux.Unlock()
+	verifSched(verifEvAfterUnlock, t)
 	caller.mux.Unlock()
+	verifSched(verifEvAfterUnlock, caller)
 	t.sendResumeValues(args, nil, nil)
 	return caller.getResumeValues()
 }
@@ -198,9 +206,11 @@ func (t *Thread) Resume(caller *Thread, args []Value) ([]Value, error) {
 // the cleanup process, or if the thread had already stopped with an error
 // previously.
 func (t *Thread) Close(caller *Thread) (bool, error) {
+	verifSched(verifEvBeforeLock, t)
 	t.mux.Lock()
 	if t.status != ThreadSuspended {
 		t.mux.Unlock()
+		verifSched(verifEvAfterUnlock, t)
 		switch t.status {
 		case ThreadDead:
 			return true, t.closeErr
@@ -208,6 +218,7 @@ func (t *Thread) Close(caller *Thread) (bool, error) {
 			return false, nil
 		}
 	}
+	verifSched(verifEvBeforeLock, caller)
 	caller.mux.Lock()
 	if caller.status != ThreadOK {
 		panic("Caller of thread to close is not running")
@@ -217,7 +228,9 @@ func (t *Thread) Close(caller *Thread) (bool, error) {
 	t.caller = caller
 	t.status = ThreadOK
 	t.mux.Unlock()
+	verifSched(verifEvAfterUnlock, t)
 	caller.mux.Unlock()
+	verifSched(verifEvAfterUnlock, caller)
 	t.sendResumeValues(nil, nil, threadClose{})
 	_, err := caller.getResumeValues()
 	return true, err
@@ -226,6 +239,7 @@ func (t *Thread) Close(caller *Thread) (bool, error) {
 // Yield to the caller thread.  The yielding thread's status switches to
 // suspended.  The caller's status must be OK.
 func (t *Thread) Yield(args []Value) ([]Value, error) {
+	verifSched(verifEvBeforeLock, t)
 	t.mux.Lock()
 	if t.status != ThreadOK {
 		panic("Thread to yield is not running")
@@ -233,8 +247,10 @@ func (t *Thread) Yield(args []Value) ([]Value, error) {
 	caller := t.caller
 	if caller == nil {
 		t.mux.Unlock()
+		verifSched(verifEvAfterUnlock, t)
 		return nil, errors.New("cannot yield from main thread")
 	}
+	verifSched(verifEvBeforeLock, caller)
 	caller.mux.Lock()
 	if caller.status != ThreadOK {
 		panic("Caller of thread to yield is not OK")
@@ -242,7 +258,9 @@ func (t *Thread) Yield(args []Value) ([]Value, error) {
 	t.status = ThreadSuspended
 	t.caller = nil
 	t.mux.Unlock()
+	verifSched(verifEvAfterUnlock, t)
 	caller.mux.Unlock()
+	verifSched(verifEvAfterUnlock, caller)
 	caller.sendResumeValues(args, nil, nil)
 	return t.getResumeValues()
 }
@@ -251,8 +269,12 @@ func (t *Thread) Yield(args []Value) ([]Value, error) {
 // running.
 func (t *Thread) end(args []Value, err error, exception interface{}) {
 	caller := t.caller
+	verifSched(verifEvBeforeLock, t)
 	t.mux.Lock()
+	verifSched(verifEvBeforeLock, caller)
 	caller.mux.Lock()
+	defer verifSched(verifEvAfterUnlock, t)
+	defer verifSched(verifEvAfterUnlock, caller)
 	defer t.mux.Unlock()
 	defer caller.mux.Unlock()
 	switch {
@@ -261,6 +283,7 @@ func (t *Thread) end(args []Value, err error, exception interface{}) {
 	case caller.status != ThreadOK:
 		panic("Caller thread of ending thread is not OK")
 	}
+	verifSched(verifEvCloseChan, t)
 	close(t.resumeCh)
 	t.status = ThreadDead
 	t.caller = nil
@@ -277,7 +300,9 @@ func (t *Thread) call(c Callable, args []Value, next Cont) error {
 }
 
 func (t *Thread) getResumeValues() ([]Value, error) {
+	verifSched(verifEvBeforeRecv, t)
 	res := <-t.resumeCh
+	verifSched(verifEvAfterRecv, t)
 	if res.exception != nil {
 		panic(res.exception)
 	}
@@ -285,7 +310,9 @@ func (t *Thread) getResumeValues() ([]Value, error) {
 }
 
 func (t *Thread) sendResumeValues(args []Value, err error, exception interface{}) {
+	verifSched(verifEvBeforeSend, t)
 	t.resumeCh <- valuesError{args: args, err: err, exception: exception}
+	verifSched(verifEvAfterSend, t)
 }
 
 //
